@@ -64,7 +64,205 @@ def the_one(vals, what):
     return s.pop()
 
 
-SECTIONS = [('vpsc', '# ---- vpsc\nC["lagrangianTolerance"] = ("rat", rat(vpsc.Solver.LAGRANGIAN_TOLERANCE))\nC["zeroUpperBound"] = ("rat", rat(vpsc.Solver.ZERO_UPPERBOUND))\nt = parse("labella/vpsc.py")\nsolve = find_func(t, "solve", "Solver")\nC["solveCostTolerance"] = ("rat", rat(the_one([v for v in num_literals(solve)], "Solver.solve literal")))\ndfdv = find_func(t, "dfdv", "Variable")\nC["dfdvFactor"] = ("rat", rat(the_one(num_literals(dfdv), "Variable.dfdv literal")))'), ('removeOverlap', '# ---- removeOverlap\nfor k in ("lineSpacing", "nodeSpacing"):\n    C["ro_" + k] = ("rat", rat(ro.DEFAULT_OPTIONS[k]))\nfor k in ("minPos", "maxPos"):\n    C["ro_" + k] = ("optrat", ro.DEFAULT_OPTIONS[k])\nt = parse("labella/removeOverlap.py")\nf = find_func(t, "removeOverlap")\nwalls = []\nfor n in ast.walk(f):\n    if isinstance(n, ast.Call) and isinstance(n.func, ast.Attribute) and n.func.attr == "Variable" and len(n.args) >= 2:\n        if isinstance(n.args[1], ast.Constant):\n            walls.append(n.args[1].value)\n        elif isinstance(n.args[1], ast.Name) and isinstance(getattr(ro, n.args[1].id, None), (int, float)):\n            walls.append(getattr(ro, n.args[1].id))      # a module-level named constant\nif len(walls) != 2:\n    raise KeyError("removeOverlap wall variables: expected 2, found %d" % len(walls))\nC["wallWeight"] = ("rat", rat(the_one(walls, "wall weight")))\nhalves = [n for n in ast.walk(f) if isinstance(n, ast.BinOp) and isinstance(n.op, ast.Div) and isinstance(n.right, ast.Constant)]\nC["halfDivisor"] = ("rat", rat(the_one([n.right.value for n in halves], "removeOverlap divisors")))'), ('distributor / force defaults', '# ---- distributor / force defaults\nfor k in ("layerWidth", "density", "nodeSpacing", "stubWidth"):\n    C["dist_" + k] = ("rat", rat(dist.DEFAULT_OPTIONS[k]))\nC["dist_algorithm"] = ("str", dist.DEFAULT_OPTIONS["algorithm"])\nfor k in ("nodeSpacing", "density", "stubWidth"):\n    C["force_" + k] = ("rat", rat(force.DEFAULT_OPTIONS[k]))\nfor k in ("minPos", "maxPos"):\n    C["force_" + k] = ("optrat", force.DEFAULT_OPTIONS[k])\nC["force_algorithm"] = ("str", force.DEFAULT_OPTIONS["algorithm"])\nt = parse("labella/distributor.py")\nf = find_func(t, "algorithm_overlap", "Distributor")\ninner = [n for n in ast.walk(f) if isinstance(n, ast.While) and isinstance(n.test, ast.BoolOp)]\nif len(inner) != 1:\n    raise KeyError("algorithm_overlap inner loop")\nC["overlapMinLabels"] = ("rat", rat(the_one([n.comparators[0].value for n in ast.walk(inner[0].test)\n                                             if isinstance(n, ast.Compare) and isinstance(n.comparators[0], ast.Constant)],\n                                            "len(nodesInCurrentLayer) > k")))'), ('linear scale ticks', '# ---- linear scale ticks\nt = parse("labella/scale.py")\nf = find_func(t, "d3_scale_linearTickRange")\ncmps = []\nmuls = []\nfor n in ast.walk(f):\n    if isinstance(n, ast.If) and isinstance(n.test, ast.Compare) and isinstance(n.test.left, ast.Name) and n.test.left.id == "err":\n        cmps.append((n.test.comparators[0].value, type(n.test.ops[0]).__name__))\n        aug = n.body[0]\n        muls.append(aug.value.value)\norder = sorted(zip(cmps, muls))\nif len(order) != 3 or any(op != "LtE" for (_, op), _ in order):\n    raise KeyError("linearTickRange thresholds: %r" % (order,))\nC["tickErr10"], C["tickErr5"], C["tickErr2"] = [("rat", rat(c[0])) for c, _ in order]\nC["tickMul10"], C["tickMul5"], C["tickMul2"] = [("rat", rat(m)) for _, m in order]\ndm = [n for n in ast.walk(f) if isinstance(n, ast.Assign) and isinstance(n.targets[0], ast.Name) and n.targets[0].id == "m"]\nC["tickDefaultCount"] = ("rat", rat(the_one([n.value.value for n in dm], "default m")))\nf = find_func(t, "d3_scale_linearPrecision")\nC["precisionFudge"] = ("rat", rat(the_one([v for v in num_literals(f) if v not in (10, 0)], "precision fudge")))\nC["timeScaleSteps"] = ("ratlist", [rat(x) for x in scale.d3_time_scaleSteps])\nnames = {id(v): k for k, v in scale.d3_time.items() if not callable(v) or hasattr(v, "floor")}\nmeths = []\nfor iv, k in scale.d3_time_scaleLocalMethods:\n    meths.append((names[id(iv)], k))\nC["timeScaleMethods"] = ("raw", "[" + ", ".join(\'("%s", %d)\' % (n, k) for n, k in meths) + "]", "List (String × Nat)")\nf = find_func(t, "tickMethod", "TimeScale")\nC["yearMillis"] = ("rat", rat(the_one([v for v in num_literals(f) if v > 1000], "tickMethod year length")))'), ('renderer / timeline defaults', '# ---- renderer / timeline defaults\nfor k in ("layerGap", "nodeHeight"):\n    C["rend_" + k] = ("rat", rat(rend.DEFAULT_OPTIONS[k]))\nC["rend_direction"] = ("str", rend.DEFAULT_OPTIONS["direction"])\nD = tl.DEFAULT_OPTIONS\nfor side in ("left", "right", "top", "bottom"):\n    C["tl_margin_" + side] = ("rat", rat(D["margin"][side]))\n    C["tl_pad_" + side] = ("rat", rat(D["labelPadding"][side]))\nfor k in ("initialWidth", "initialHeight", "dotRadius", "layerGap"):\n    C["tl_" + k] = ("rat", rat(D[k]))\nC["tl_direction"] = ("str", D["direction"])\nC["tl_defaultWidth"] = ("rat", rat(tl.DEFAULT_WIDTH))\nt = parse("labella/timeline.py")\nf = find_func(t, "__init__", "Item")\nC["tl_itemHeight"] = ("rat", rat(the_one([v for v in num_literals(f)], "Item height")))'), ('tex accents', '# ---- tex accents\nt = parse("labella/tex.py")\nf = find_func(t, "uni2tex")\nacc = None\nfor n in ast.walk(f):\n    if isinstance(n, ast.Dict) and n.keys and all(isinstance(k, ast.Constant) and isinstance(k.value, int) for k in n.keys):\n        acc = [(k.value, v.value) for k, v in zip(n.keys, n.values)]\nif not acc:\n    raise KeyError("accent table")\nC["texAccents"] = ("raw", "[" + ", ".join("(%d, %s)" % (k, json.dumps(v)) for k, v in acc) + "]", "List (Nat × String)")'), ('utils', '# ---- utils\nt = parse("labella/utils.py")\nf = find_func(t, "int2name")\nlits = num_literals(f)\nC["nameBase"] = ("nat", the_one([v for v in lits if v > 1 and v < 60], "int2name base"))\nC["nameFirstChar"] = ("nat", the_one([v for v in lits if v >= 60], "int2name first char"))\n')]
+def resolve(node, mod):
+    """numeric value of an expression node: a literal, or a name / attribute bound at module level (a named constant), else None"""
+    if isinstance(node, ast.Constant) and isinstance(node.value, (int, float)) and not isinstance(node.value, bool):
+        return node.value
+    if isinstance(node, ast.UnaryOp) and isinstance(node.op, ast.USub):
+        v = resolve(node.operand, mod)
+        return None if v is None else -v
+    if isinstance(node, ast.Name) and mod is not None:
+        v = getattr(mod, node.id, None)
+        if isinstance(v, (int, float)) and not isinstance(v, bool):
+            return v
+    if isinstance(node, ast.Attribute) and mod is not None:         # Cls.NAME / module.NAME / self.NAME
+        base = node.value
+        for holder in ([getattr(mod, base.id, None)] if isinstance(base, ast.Name) else []) + \
+                      [c for c in vars(mod).values() if isinstance(c, type)]:
+            v = getattr(holder, node.attr, None) if holder is not None else None
+            if isinstance(v, (int, float)) and not isinstance(v, bool):
+                return v
+    return None
+
+
+def values_in(node, mod):
+    """numeric literals and named module-level constants used inside a function body"""
+    out = []
+    for n in ast.walk(node):
+        if isinstance(n, (ast.Constant, ast.Name, ast.Attribute)):
+            v = resolve(n, mod)
+            if v is not None:
+                out.append(v)
+    return out
+
+
+def callees(tree, func, cls=None):
+    """the function itself plus the module-level functions / methods of the same class it calls (transitively): a refactoring that
+    moves a loop into a helper keeps its literals findable"""
+    seen, todo = [], [func]
+    names = {}
+    for n in ast.walk(tree):
+        if isinstance(n, ast.FunctionDef):
+            names.setdefault(n.name, n)
+    while todo:
+        f = todo.pop()
+        if f in seen:
+            continue
+        seen.append(f)
+        for n in ast.walk(f):
+            if isinstance(n, ast.Call):
+                nm = n.func.attr if isinstance(n.func, ast.Attribute) else (n.func.id if isinstance(n.func, ast.Name) else None)
+                if nm in names and names[nm] not in seen:
+                    todo.append(names[nm])
+    return seen
+
+
+SECTIONS = [
+ ("vpsc class constants", """
+C["lagrangianTolerance"] = ("rat", rat(vpsc.Solver.LAGRANGIAN_TOLERANCE))
+C["zeroUpperBound"] = ("rat", rat(vpsc.Solver.ZERO_UPPERBOUND))
+"""),
+ ("vpsc solve tolerance", """
+t = parse("labella/vpsc.py")
+fs = callees(t, find_func(t, "solve", "Solver"))
+# the literal of `while abs(lastcost - cost) > 0.0001` (a Compare against a small positive number inside solve)
+cands = [resolve(n.comparators[0], vpsc) for f in fs[:1] for n in ast.walk(f) if isinstance(n, ast.Compare)]
+C["solveCostTolerance"] = ("rat", rat(the_one([v for v in cands if v is not None and 0 < v < 1], "Solver.solve tolerance")))
+"""),
+ ("vpsc dfdv factor", """
+t = parse("labella/vpsc.py")
+C["dfdvFactor"] = ("rat", rat(the_one(values_in(find_func(t, "dfdv", "Variable"), vpsc), "Variable.dfdv literal")))
+"""),
+ ("removeOverlap defaults", """
+for k in ("lineSpacing", "nodeSpacing"):
+    C["ro_" + k] = ("rat", rat(ro.DEFAULT_OPTIONS[k]))
+for k in ("minPos", "maxPos"):
+    C["ro_" + k] = ("optrat", ro.DEFAULT_OPTIONS[k])
+"""),
+ ("removeOverlap wall weight", """
+t = parse("labella/removeOverlap.py")
+walls = []
+for f in callees(t, find_func(t, "removeOverlap")):
+    for n in ast.walk(f):
+        if isinstance(n, ast.Call) and ((isinstance(n.func, ast.Attribute) and n.func.attr == "Variable") or (isinstance(n.func, ast.Name) and n.func.id == "Variable")) and len(n.args) >= 2:
+            v = resolve(n.args[1], ro)
+            if v is not None:
+                walls.append(v)
+if len(walls) != 2:
+    raise KeyError("removeOverlap wall variables: expected 2, found %d" % len(walls))
+C["wallWeight"] = ("rat", rat(the_one(walls, "wall weight")))
+"""),
+ ("removeOverlap half divisor", """
+t = parse("labella/removeOverlap.py")
+halves = []
+for f in callees(t, find_func(t, "removeOverlap")):
+    halves += [resolve(n.right, ro) for n in ast.walk(f) if isinstance(n, ast.BinOp) and isinstance(n.op, ast.Div)]
+C["halfDivisor"] = ("rat", rat(the_one([v for v in halves if v is not None], "removeOverlap divisors")))
+"""),
+ ("distributor / force defaults", """
+for k in ("layerWidth", "density", "nodeSpacing", "stubWidth"):
+    C["dist_" + k] = ("rat", rat(dist.DEFAULT_OPTIONS[k]))
+C["dist_algorithm"] = ("str", dist.DEFAULT_OPTIONS["algorithm"])
+for k in ("nodeSpacing", "density", "stubWidth"):
+    C["force_" + k] = ("rat", rat(force.DEFAULT_OPTIONS[k]))
+for k in ("minPos", "maxPos"):
+    C["force_" + k] = ("optrat", force.DEFAULT_OPTIONS[k])
+C["force_algorithm"] = ("str", force.DEFAULT_OPTIONS["algorithm"])
+"""),
+ ("distributor overlap loop", """
+t = parse("labella/distributor.py")
+ks = []
+for f in callees(t, find_func(t, "algorithm_overlap", "Distributor")):
+    for w in ast.walk(f):
+        if isinstance(w, ast.While):
+            for n in ast.walk(w.test):      # `len(nodesInCurrentLayer) > 2 and ...`
+                if isinstance(n, ast.Compare) and isinstance(n.ops[0], ast.Gt) and isinstance(n.left, ast.Call) and getattr(n.left.func, "id", "") == "len":
+                    v = resolve(n.comparators[0], dist)
+                    if v is not None:
+                        ks.append(v)
+C["overlapMinLabels"] = ("rat", rat(the_one(ks, "len(nodesInCurrentLayer) > k")))
+"""),
+ ("linear tick thresholds", """
+t = parse("labella/scale.py")
+f = find_func(t, "d3_scale_linearTickRange")
+pairs = []
+for n in ast.walk(f):
+    if isinstance(n, ast.If) and isinstance(n.test, ast.Compare) and len(n.test.ops) == 1 and isinstance(n.test.ops[0], ast.LtE) and n.body and isinstance(n.body[0], ast.AugAssign) and isinstance(n.body[0].op, ast.Mult):
+        thr, mul = resolve(n.test.comparators[0], scale), resolve(n.body[0].value, scale)
+        if thr is not None and mul is not None:
+            pairs.append((thr, mul))
+order = sorted(pairs)
+if len(order) != 3:
+    raise KeyError("linearTickRange thresholds: %r" % (order,))
+C["tickErr10"], C["tickErr5"], C["tickErr2"] = [("rat", rat(c)) for c, _ in order]
+C["tickMul10"], C["tickMul5"], C["tickMul2"] = [("rat", rat(m)) for _, m in order]
+"""),
+ ("linear tick default count", """
+t = parse("labella/scale.py")
+f = find_func(t, "d3_scale_linearTickRange")
+dm = [resolve(n.value, scale) for n in ast.walk(f) if isinstance(n, ast.Assign) and isinstance(n.targets[0], ast.Name) and n.targets[0].id == "m"]
+C["tickDefaultCount"] = ("rat", rat(the_one([v for v in dm if v is not None], "default m")))
+"""),
+ ("linear precision fudge", """
+t = parse("labella/scale.py")
+f = find_func(t, "d3_scale_linearPrecision")
+C["precisionFudge"] = ("rat", rat(the_one([v for v in values_in(f, scale) if 0 < v < 1], "precision fudge")))
+"""),
+ ("time scale step table", """
+C["timeScaleSteps"] = ("ratlist", [rat(x) for x in scale.d3_time_scaleSteps])
+names = {id(v): k for k, v in scale.d3_time.items() if not callable(v) or hasattr(v, "floor")}
+meths = []
+for iv, k in scale.d3_time_scaleLocalMethods:
+    meths.append((names[id(iv)], k))
+C["timeScaleMethods"] = ("raw", "[" + ", ".join('("%s", %d)' % (n, k) for n, k in meths) + "]", "List (String × Nat)")
+"""),
+ ("time scale year length", """
+t = parse("labella/scale.py")
+f = find_func(t, "tickMethod", "TimeScale")
+C["yearMillis"] = ("rat", rat(the_one([v for v in values_in(f, scale) if v > 1000], "tickMethod year length")))
+"""),
+ ("renderer / timeline defaults", """
+for k in ("layerGap", "nodeHeight"):
+    C["rend_" + k] = ("rat", rat(rend.DEFAULT_OPTIONS[k]))
+C["rend_direction"] = ("str", rend.DEFAULT_OPTIONS["direction"])
+D = tl.DEFAULT_OPTIONS
+for side in ("left", "right", "top", "bottom"):
+    C["tl_margin_" + side] = ("rat", rat(D["margin"][side]))
+    C["tl_pad_" + side] = ("rat", rat(D["labelPadding"][side]))
+for k in ("initialWidth", "initialHeight", "dotRadius", "layerGap"):
+    C["tl_" + k] = ("rat", rat(D[k]))
+C["tl_direction"] = ("str", D["direction"])
+C["tl_defaultWidth"] = ("rat", rat(tl.DEFAULT_WIDTH))
+"""),
+ ("timeline item height", """
+# behavioural: the height an item with an explicit width gets
+C["tl_itemHeight"] = ("rat", rat(tl.Item(0, width=10).height))
+"""),
+ ("tex accents", """
+t = parse("labella/tex.py")
+acc = None
+for n in ast.walk(t):       # the accent table: a dict literal {code point: accent command}, inside uni2tex or at module level
+    if isinstance(n, ast.Dict) and len(n.keys) >= 5 and all(isinstance(k, ast.Constant) and isinstance(k.value, int) for k in n.keys) \\
+            and all(isinstance(v, ast.Constant) and isinstance(v.value, str) for v in n.values):
+        acc = [(k.value, v.value) for k, v in zip(n.keys, n.values)]
+if not acc:
+    raise KeyError("accent table")
+acc = sorted(dict(acc).items())      # a dict literal: later duplicates win, order is immaterial -> canonical order
+C["texAccents"] = ("raw", "[" + ", ".join("(%d, %s)" % (k, json.dumps(v)) for k, v in acc) + "]", "List (Nat × String)")
+"""),
+ ("utils int2name", """
+# behavioural: the alphabet of int2name is read off the function itself (first letter, and the first index with a two-letter name)
+utils = importlib.import_module("labella.utils")
+first = utils.int2name(0)
+if len(first) != 1:
+    raise KeyError("int2name(0) is not one letter")
+base = next(i for i in range(1, 200) if len(utils.int2name(i)) == 2)
+if [utils.int2name(i) for i in range(base)] != [chr(ord(first) + i) for i in range(base)]:
+    raise KeyError("int2name alphabet is not a contiguous run of characters")
+C["nameBase"] = ("nat", base)
+C["nameFirstChar"] = ("nat", ord(first))
+"""),
+]
 
 
 def collect():
